@@ -176,3 +176,6 @@ def run(S):
     rule_spl(S)
     rule_eq(S)
     rule_bump(S)
+    # the recorded pair must carry the version that was validated *before* the content was read (shared with C05)
+    from checks.C05 import rule_rec
+    rule_rec(S)
